@@ -331,6 +331,68 @@ box_create
 assert
 b ok
 notbig:
+txna ApplicationArgs 0
+byte "put"
+==
+bz notput
+txna ApplicationArgs 1
+txna ApplicationArgs 2
+box_put
+b ok
+notput:
+txna ApplicationArgs 0
+byte "putfail"
+==
+bz notputfail
+txna ApplicationArgs 1
+txna ApplicationArgs 2
+box_put
+err
+notputfail:
+txna ApplicationArgs 0
+byte "replacefail"
+==
+bz notreplacefail
+txna ApplicationArgs 1
+int 0
+txna ApplicationArgs 2
+box_replace
+err
+notreplacefail:
+txna ApplicationArgs 0
+byte "splice"
+==
+bz notsplice
+txna ApplicationArgs 1
+int 0
+int 24
+txna ApplicationArgs 2
+box_splice
+b ok
+notsplice:
+txna ApplicationArgs 0
+byte "splicefail"
+==
+bz notsplicefail
+txna ApplicationArgs 1
+int 0
+int 24
+txna ApplicationArgs 2
+box_splice
+err
+notsplicefail:
+txna ApplicationArgs 0
+byte "check"
+==
+bz notcheck
+txna ApplicationArgs 1
+box_get
+assert
+txna ApplicationArgs 2
+==
+assert
+b ok
+notcheck:
 txna ApplicationArgs 1
 int 0
 txna ApplicationArgs 2
